@@ -134,7 +134,7 @@ Print Assumptions C17_setter_history_free_refuted.
 (* the witness on the generated table, with real classes: periodic_surface set first on an AxisPlane (PX)
    latches AxisPlane; a later call on a GeneralPlane (or any surface that is not an AxisPlane) is rejected.
    (vacuous once no declaration latches any more) *)
-Definition latch_witness (T : table) (c1 c2 : string) (g : gprop) : bool :=
+Definition latch_witness (T : Iso.table) (c1 c2 : string) (g : gprop) : bool :=
   accepts T [] (g_name g) c2 c2 && negb (accepts T (after T [] [(g_name g, c1, c1)]) (g_name g) c2 c2).
 Example C17_latch_witness_now :
   forallb (latch_witness Globals.table "AxisPlane" "GeneralPlane") (latching_props Globals.table) = true.
